@@ -104,6 +104,13 @@ def _T():
         {'op': 'change_field', 'model': 'C', 'name': 'f2',
          'attrs': {'null': False}, 'initial': 5},
         {'op': 'rename_field', 'model': 'C', 'old': 'f2', 'new': 'f3'},
+        # ---- 27.. : a second Meta.indexes value, a relation added before
+        # the target is renamed, a second rename (chain A -> C -> D)
+        {'op': 'change_meta', 'model': 'A', 'prop': 'indexes',
+         'value': [{'fields': ['f1'], 'name': 'ix_enum2'}]},
+        {'op': 'add_field', 'model': 'B', 'name': 'fk2',
+         'fdef': {'kind': 'ForeignKey', 'to': 'app1.A', 'null': True}},
+        {'op': 'rename_model', 'old': 'C', 'new': 'D', 'db_table': 'app1_d'},
     ]
     for e in t:
         e['app'] = 'app1'
